@@ -59,3 +59,9 @@ claim('C13', 'exploration', 'flat-vs-include-split differential on the real code
       'with include depth 0 and descriptors balanced afterwards; errors placed after / inside includes must carry the right file and line; 13 kinds of failing include, 12+ in a row, must each be a reported parse error '
       'without descriptor growth, after which a good include into the same and a new context still works. Randomised differential exploration plus an enumerated failure matrix is the level that fits: the input space is unbounded, the failure kinds are few.',
       'Trusts: /proc/self/fd counting and the allocmon FILE table as descriptor monitors; no permission-based failures (root).')
+
+claim('C12', 'exploration', 'metamorphic with/without relation on the real code: generated unknown items inserted at every item boundary of accepted texts, compared by return code, values-only tree hash and diagnostic count; nesting ladder for the stack bound',
+      'For accepted texts, a recursive generator of undeclared items (assignment, list, append, call, plain/titled sections that are empty or end in a scalar/list/call and contain known names) is inserted at every boundary '
+      'at every depth and in multi-insertions; under ignore-unknown nothing observable may change and no diagnostic may appear, without the flag the text must be rejected with a diagnostic; unknown sections nested 10^2..10^5 deep must be skipped. '
+      'The relation is metamorphic over insertion points and item shapes, which randomised systematic insertion explores.',
+      'Trusts: the values-only tree hash; unknown items are well-formed by construction.')
